@@ -384,7 +384,7 @@ func init() {
 				id++
 				qo.printf("Q %d %s n=%d samples=%d metrics=%d maxdepth=%d known_class=%d %s\n", id, kind, n, len(ds),
 					cl.metrics, cl.maxDepth, b2i(knownClass), strings.Join(fs, " "))
-				runAndRead(ho, ro, id, sameSchemaCase(kind, wrappers[r.intn(len(wrappers))], n, ds), false)
+				runAndRead(ho, ro, id, sameSchemaCase(kind, pickWrapper(r, kind), n, ds), false)
 			}
 		}
 		// 1. fixed witnesses of the classes of the property's quantifier
